@@ -489,4 +489,76 @@ theorem colTail_eq_snodeBmod (cplx : Bool) (jcol fpanelc : Nat) (xsup supno lsub
   unfold colTail snodeBmod
   simp only [Nat.max_eq_left h, Nat.sub_self, Nat.add_zero, Nat.sub_zero]
 
+/-! ### one segment instantiates the abstract supernodal block update -/
+section sched
+open Slu.LU
+
+theorem dotL_storage2 (cols : List (Nat × Vec K)) (us : List K) (hus : us.length = cols.length)
+    (lsub : Array Nat) (istart n ld luptr : Nat) (lusup : Array K)
+    (R2 : ∀ t (ht : t < cols.length) i, i < n → (cols[t]).2.get (lsub[istart + i]!) =
+        if i < t then 0 else if i = t then 1 else lusup[luptr + (t * ld + i)]!)
+    (i : Nat) (hi : i < n) :
+    dotL us cols (lsub[istart + i]!) =
+      ∑ r ∈ range cols.length, us.getD r 0 * (if i < r then 0 else if i = r then 1 else lusup[luptr + (r * ld + i)]!) := by
+  rw [dotL_eq_sum us cols _ hus]
+  apply Finset.sum_congr rfl
+  intro r hr
+  have hr' := mem_range.mp hr
+  have : cols.getD r (0, #[]) = cols[r] := by simp [List.getD, hr']
+  rw [this, R2 r hr' i hi]
+
+/-- `cols` are the columns `kfnz..krep` of the supernode as the factorization model holds them
+(pivot row, column of L over all rows), agreeing with the storage on the rows `kfnz..` of the
+supernode.  Then the segment rows of `dense` receive `snodeSolve cols dense` and the rows below
+`snodeGemv cols us dense`. -/
+theorem segUpdate_eq_snodeBlock' (cplx : Bool) (lsub : Array Nat) (g : Seg) (lusup dense tempv : Array K)
+    (ok : SegOK lsub g dense)
+    (htv : 4 ≤ g.segsze → g.segsze + g.nrow ≤ tempv.size) (htz : 4 ≤ g.segsze → ∀ i, i < g.segsze + g.nrow → tempv[i]! = 0)
+    (cols : List (Nat × Vec K)) (hlen : cols.length = g.segsze)
+    (R1 : ∀ t (ht : t < cols.length), (cols[t]).1 = lsub[g.lptr + g.noZeros + t]!)
+    (R2 : ∀ t (ht : t < cols.length) i, i < g.segsze + g.nrow → (cols[t]).2.get (lsub[g.lptr + g.noZeros + i]!) =
+        if i < t then 0 else if i = t then 1
+        else lusup[g.luptr + (g.nsupr * g.noZeros + g.noZeros) + (t * g.nsupr + i)]!) :
+    UnitLower cols ∧ (∀ x ∈ cols, x.1 < dense.size) ∧
+    (∀ s, s < g.segsze → (segUpdate cplx lsub g lusup dense tempv).1[lsub[g.lptr + g.noZeros + s]!]! =
+      (snodeSolve cols dense).getD s 0) ∧
+    (∀ i, i < g.nrow → (segUpdate cplx lsub g lusup dense tempv).1[lsub[g.lptr + g.noZeros + (g.segsze + i)]!]! =
+      (snodeGemv cols (snodeSolve cols dense) dense).get (lsub[g.lptr + g.noZeros + (g.segsze + i)]!)) := by
+  have hr : ∀ x ∈ cols, x.1 < dense.size := by
+    intro x hx
+    obtain ⟨k, hk, rfl⟩ := List.getElem_of_mem hx
+    rw [R1 k hk]; exact ok.hrow k (by omega)
+  have hU : UnitLower cols := by
+    apply unitLower_of_index
+    · intro t ht
+      rw [R1 t ht, R2 t ht t (by omega), if_neg (by omega), if_pos rfl]
+    · intro r t hrt ht
+      rw [R1 r (by omega), R2 t ht r (by omega), if_pos hrt]
+  have hus := snodeSolve_eq_elim cols dense hr
+  have hul : (snodeSolve cols dense).length = cols.length := by rw [hus, elim_length]
+  have hget : ∀ i, i < g.segsze + g.nrow →
+      Vec.get dense (lsub[g.lptr + g.noZeros + i]!) = dense[lsub[g.lptr + g.noZeros + i]!]! := by
+    intro i hi
+    rw [getElem!_eq_getD_of_lt _ _ (ok.hrow i hi)]; rfl
+  have hz : ∀ t, t < g.segsze → (fun t => (snodeSolve cols dense).getD t 0) t = dense[lsub[g.lptr + g.noZeros + t]!]! -
+      ∑ j ∈ range t, (fun t => (snodeSolve cols dense).getD t 0) j *
+        lusup[g.luptr + (g.nsupr * g.noZeros + g.noZeros) + (j * g.nsupr + t)]! := by
+    intro t ht
+    have hsp := elim_spec cols dense (lsub[g.lptr + g.noZeros + t]!) (ok.hrow t (by omega))
+    have hzero := (elim_zero_at_pivots cols dense hU hr [] (by simp) (by simp)).1 (cols[t]'(by omega)) (List.getElem_mem _)
+    rw [R1 t (by omega)] at hzero
+    rw [hzero, add_zero, ← hus, dotL_storage2 cols _ hul lsub (g.lptr + g.noZeros) (g.segsze + g.nrow) g.nsupr
+      (g.luptr + (g.nsupr * g.noZeros + g.noZeros)) lusup R2 t (by omega), hlen,
+      sum_tri g.segsze t ht, hget t (by omega)] at hsp
+    show (snodeSolve cols dense).getD t 0 = _
+    rw [hsp]; ring
+  obtain ⟨⟨_, c2, c3, _⟩, _⟩ := segUpdate_spec' cplx lsub g lusup dense tempv (fun t => (snodeSolve cols dense).getD t 0) ok htv htz hz
+  refine ⟨hU, hr, c2, fun i hi => ?_⟩
+  rw [c3 i hi, snodeGemv_get _ _ _ _ (ok.hrow _ (by omega)), hget _ (by omega),
+    dotL_storage2 cols _ hul lsub (g.lptr + g.noZeros) (g.segsze + g.nrow) g.nsupr
+      (g.luptr + (g.nsupr * g.noZeros + g.noZeros)) lusup R2 (g.segsze + i) (by omega), hlen,
+    sum_below g.segsze (g.segsze + i) (by omega)]
+
+end sched
+
 end Slu.ColBmod
